@@ -107,7 +107,11 @@ fn mult<const SET: bool, const N: usize>(s: &Src<N>, k: u8, v: u8) -> usize {
 
 /// N = script length per side, OC = N*N = maximal number of results
 fn join_check<const SET: bool, const N: usize, const OC: usize>(steps: usize) {
-    let (l, r) = (Src::<N>::sym(), Src::<N>::sym());
+    join_check2::<SET, N, N, OC>(steps)
+}
+/// NL / NR = script length of the left / right input, OC = NL*NR
+fn join_check2<const SET: bool, const NL: usize, const NR: usize, const OC: usize>(steps: usize) {
+    let (l, r) = (Src::<NL>::sym(), Src::<NR>::sym());
     let (l0, r0) = (l, r);
     let (pl, pr) = (l.pendings(), r.pendings());
     let j = l.map(kv).symmetric_hash_join(r.map(kv), ArrState::<SET>::new(), ArrState::<SET>::new());
@@ -135,7 +139,7 @@ fn join_check<const SET: bool, const N: usize, const OC: usize>(steps: usize) {
     }
     let _ = steps;
     step!(); step!(); step!(); step!(); step!(); step!(); step!(); step!(); step!(); step!();
-    if N > 2 {
+    if NL > 2 {
         step!(); step!(); step!(); step!(); step!(); step!(); step!();
     }
     // (`SymmetricHashJoin` does not claim `FusedPull`: it is not polled again after its end)
@@ -153,13 +157,13 @@ fn join_check<const SET: bool, const N: usize, const OC: usize>(steps: usize) {
             }
             i += 1;
         }
-        assert!(cnt == mult::<SET, N>(&l0, key, v1) * mult::<SET, N>(&r0, key, v2), "C13 a pair was emitted with the wrong multiplicity (repeated or spurious)");
+        assert!(cnt == mult::<SET, NL>(&l0, key, v1) * mult::<SET, NR>(&r0, key, v2), "C13 a pair was emitted with the wrong multiplicity (repeated or spurious)");
     }
     // (b) nothing is missing: any delivered left entry and right entry with equal keys appear as an output
     let (a, b): (usize, usize) = (any(), any());
-    if a < N && b < N {
+    if a < NL && b < NR {
         let ((k1, v1), (k2, v2)) = (kv(l0.items[a]), kv(r0.items[b]));
-        if k1 == k2 && mult::<SET, N>(&l0, k1, v1) > 0 && mult::<SET, N>(&r0, k2, v2) > 0 {
+        if k1 == k2 && mult::<SET, NL>(&l0, k1, v1) > 0 && mult::<SET, NR>(&r0, k2, v2) > 0 {
             let mut found = false;
             let mut i = 0;
             while i < OC {
@@ -171,15 +175,16 @@ fn join_check<const SET: bool, const N: usize, const OC: usize>(steps: usize) {
             assert!(found, "C13 a matching left/right pair was never emitted");
         }
     }
-    cov!(nout + 1 >= N && pl > 0 && pr > 0, "results with pendings on both sides");
-    cov!(nout == 0 && mult::<SET, N>(&l0, kv(l0.items[0]).0, kv(l0.items[0]).1) > 0 && mult::<SET, N>(&r0, kv(r0.items[0]).0, kv(r0.items[0]).1) > 0, "no key in common");
+    cov!(nout + 1 >= NR && pl > 0 && pr > 0, "results with pendings on both sides");
+    cov!(nout == 0 && mult::<SET, NL>(&l0, kv(l0.items[0]).0, kv(l0.items[0]).1) > 0 && mult::<SET, NR>(&r0, kv(r0.items[0]).0, kv(r0.items[0]).1) > 0, "no key in common");
 }
 
 //@ heavy=1
 harness!(c13_join_set_2, 7, { join_check::<true, 2, 4>(10); });
 //@ heavy=1
 harness!(c13_join_multiset_2, 7, { join_check::<false, 2, 4>(10); });
+// (3 symbolic script entries on BOTH sides exhaust 16 GB in CBMC: not kept; 3 x 2 is the thorough bound)
 //@ heavy=1 tier=thorough
-harness!(c13_join_set_3, 11, { join_check::<true, 3, 9>(17); });
+harness!(c13_join_set_3x2, 8, { join_check2::<true, 3, 2, 6>(17); });
 //@ heavy=1 tier=thorough
-harness!(c13_join_multiset_3, 11, { join_check::<false, 3, 9>(17); });
+harness!(c13_join_multiset_3x2, 8, { join_check2::<false, 3, 2, 6>(17); });
